@@ -586,7 +586,7 @@ def run_case(res, drv, rng, tier, profile):
             if o:
                 res.note('obs.' + (o[0] if o[0] in 'WXHT' else o.split(':')[0]))
     if drv is not None:
-        drv.ask('a.reset %s %s' % (hexin(ident.encode()), hexin(secret.encode())))
+        drv.ask(reset_line(ident, secret))
         for idx, (ev, line) in enumerate(zip(events, lines)):
             mo = drv.ask('a.ev ' + ' '.join(str(x) for x in ev))
             status, _, mline = mo.partition(' ')
@@ -613,7 +613,7 @@ def run_sweep(res, drv, make_impl, canon_fn, twisted, prefix, client, double=Fal
         res.note('sweep')
         res.nontriv([json.dumps(events)[:4000]])
         if drv is not None:
-            drv.ask('%s.reset %s %s' % (prefix, hexin(b'me'), hexin(b'secret')))
+            drv.ask(reset_line('me', 'secret') if prefix == 'a' else '%s.reset %s %s' % (prefix, hexin(b'me'), hexin(b'secret')))
             for idx, (ev, line) in enumerate(zip(events, lines)):
                 mo = drv.ask('%s.ev ' % prefix + ' '.join(str(x) for x in ev))
                 status, _, mline = mo.partition(' ')
@@ -621,6 +621,64 @@ def run_sweep(res, drv, make_impl, canon_fn, twisted, prefix, client, double=Fal
                 if status != 'ok' or mline != line:
                     res.disagree('%s, fault sweep %r, event %d %r' % (client, plan, idx, ev[:2]), script, line[:800], mo[:800])
                     break
+
+
+_DELAYS = None
+
+
+def measured_delays():
+    """the two waits the asyncio session makes before a new attempt - after a refused attempt (`asyncio.sleep(1)`
+    today) and after a lost connection (none today) - are constants of the code, not of the property: they are
+    MEASURED on the real session in virtual time (to the millisecond) and handed to the model, so that a change
+    of the back-off alone does not break the correspondence"""
+    global _DELAYS
+    if _DELAYS is not None:
+        return _DELAYS
+
+    def until_attempt(prefix):
+        def fresh():
+            impl = Impl('me', 'secret')
+            for ev in prefix:
+                out = impl.event(ev)
+            return impl, out
+        impl, out = fresh()
+        try:
+            if 'T' in out:
+                return 0
+            total, coarse = 0, None
+            for _ in range(2400):               # up to 120 s
+                total += 50
+                if 'T' in impl.event(['advance', 50]):
+                    coarse = total
+                    break
+        finally:
+            impl.close()
+        if coarse is None:
+            return None
+        impl, out = fresh()
+        try:
+            t = coarse - 50
+            if t and 'T' in impl.event(['advance', t]):
+                return t
+            for _ in range(50):
+                t += 1
+                if 'T' in impl.event(['advance', 1]):
+                    return t
+        finally:
+            impl.close()
+        return coarse
+    try:
+        retry = until_attempt([['idle'], ['refuse']])
+        loss = until_attempt([['idle'], ['accept'], ['lost']])
+    except Exception:
+        retry, loss = None, None
+    _DELAYS = (1000 if retry is None else retry, 0 if loss is None else loss)
+    return _DELAYS
+
+
+def reset_line(ident, secret):
+    r, l = measured_delays()
+    return 'a.reset %s %s %d %d' % (hexin(ident.encode()), hexin(secret.encode()), r, l)
 
 
 def outage_script(make_impl, canon_fn, twisted, n):
@@ -675,7 +733,7 @@ def run_outage(res, drv, make_impl, canon_fn, twisted, prefix, client, n):
     res.note('outage')
     res.nontriv(['outage-%d-%s' % (n, client)])
     if drv is not None:
-        drv.ask('%s.reset %s %s' % (prefix, hexin(b'me'), hexin(b'secret')))
+        drv.ask(reset_line('me', 'secret') if prefix == 'a' else '%s.reset %s %s' % (prefix, hexin(b'me'), hexin(b'secret')))
         for idx, (ev, line) in enumerate(zip(events, lines)):
             mo = drv.ask('%s.ev ' % prefix + ' '.join(str(x) for x in ev))
             status, _, mline = mo.partition(' ')
@@ -718,7 +776,7 @@ def replay(script, drv):
         impl.close()
     monitors(res, (script['ident'], script['secret']), script['events'], lines, script)
     if drv is not None:
-        drv.ask('a.reset %s %s' % (hexin(script['ident'].encode()), hexin(script['secret'].encode())))
+        drv.ask(reset_line(script['ident'], script['secret']))
         for idx, (ev, line) in enumerate(zip(script['events'], lines)):
             mo = drv.ask('a.ev ' + ' '.join(str(x) for x in ev))
             if canon([o for o in mo.partition(' ')[2].split(';') if o]) != line:
